@@ -1,0 +1,67 @@
+//! Verification hooks. Compiled only with `--cfg deltio_verif`.
+//!
+//! Nothing in here is used by the server itself. The functions only expose
+//! crate-private pure functions and read-only accessors to the verification
+//! harness that lives outside of this repository.
+
+use crate::paging::Paging;
+use crate::subscriptions::{AckId, DeadlineModification, PushConfig, SubscriptionName};
+use crate::topics::{TopicMessage, TopicName};
+use std::time::Duration;
+use tokio::time::Instant;
+use tonic::Status;
+
+/// The instant that deadlines are rounded relative to.
+pub fn epoch() -> Instant {
+    crate::subscriptions::verif_epoch()
+}
+
+pub fn parse_topic_name(raw_value: &str) -> Result<TopicName, Status> {
+    super::parser::parse_topic_name(raw_value)
+}
+
+pub fn parse_subscription_name(raw_value: &str) -> Result<SubscriptionName, Status> {
+    super::parser::parse_subscription_name(raw_value)
+}
+
+pub fn parse_ack_id(raw_value: &str) -> Result<AckId, Status> {
+    super::parser::parse_ack_id(raw_value)
+}
+
+pub fn parse_deadline_extension_duration(raw_value: i32) -> Result<Option<Duration>, Status> {
+    super::parser::parse_deadline_extension_duration(raw_value)
+}
+
+pub fn parse_deadline_modifications(
+    now: Instant,
+    ack_ids: &[String],
+    modify_deadline_seconds: &[i32],
+) -> Result<Vec<DeadlineModification>, Status> {
+    super::parser::parse_deadline_modifications(now, ack_ids, modify_deadline_seconds)
+}
+
+pub fn parse_paging(size: i32, token: &str) -> Result<Paging, Status> {
+    super::parser::parse_paging(size, token)
+}
+
+pub fn parse_project_id(raw_value: &str) -> Result<String, Status> {
+    super::parser::parse_project_id(raw_value)
+}
+
+pub fn parse_push_config(
+    push_config_proto: &crate::pubsub_proto::PushConfig,
+) -> Result<PushConfig, Status> {
+    super::parser::parse_push_config(push_config_proto)
+}
+
+pub fn parse_topic_message(message_proto: &crate::pubsub_proto::PubsubMessage) -> TopicMessage {
+    super::parser::parse_topic_message(message_proto)
+}
+
+pub fn page_token_encode(value: usize) -> String {
+    super::page_token::PageToken::new(value).encode()
+}
+
+pub fn page_token_try_decode(encoded: &str) -> Option<usize> {
+    super::page_token::PageToken::try_decode(encoded).map(|t| t.into())
+}
